@@ -126,8 +126,8 @@ def gen_case(rng, directed=None):
             dmax = float('%.4g' % (dmin * 1.5))
     if directed.get('exact'):
         step = rng.choice([0.25, 0.5, 0.125])
-        dmin = rng.choice([1., 10., 0.1])
-        dmax = dmin * 10.
+        dmin = rng.choice([1., 10., 100.])        # exact powers of ten: log10 is exact in floats and in the model
+        dmax = dmin * rng.choice([10., 100.])
     dunit = directed.get('dunit', 'kpc' if directed.get('exact') else rng.choice(['kpc', 'kpc', 'pc']))
     if dunit == 'pc':
         du = [float('%.4g' % (dmin * 1000.)), float('%.4g' % (dmax * 1000.))]
@@ -139,7 +139,7 @@ def gen_case(rng, directed=None):
     if dunit == 'kpc':
         du = [dmin, dmax]
     # entries
-    ne = directed.get('ne', rng.choice([1, 2, 2, 3, 3, 3, 4, 4, 5]))
+    ne = directed.get('ne', rng.choice([1, 2, 2, 2, 3, 3, 3, 3, 4, 4, 4, 5, 5]))
     kinds = directed.get('kinds') or [rng.choice(['band', 'mono', 'mono']) for _ in range(ne)]
     ne = len(kinds)
     entries = []
